@@ -33,8 +33,65 @@ def design_level(run):
         run.extra["mc_instances"]["MC_TreeCache_unrepaired (negative)"] = {"violates": "CacheCoherent", "as_expected": True}
 
 
+def big_figures(run):
+    """the statement's own oracle on figures far beyond TLC's (and a double's) integer range: networks with odd dimensions
+    around 1e5, histories of slicing / projecting / restoring / reconfiguring; after every step the tracked figures must be
+    the figures of a tree rebuilt from scratch (exact integer arithmetic on both sides).  Not judged by TLC: its integers
+    are 32-bit (stated in DESIGN.md)."""
+    import random
+    import cotengra as ct
+    from .. import core, nets, observe, history
+    rng = random.Random(run.seed * 9173 + 4)
+    quick = run.tier == "quick"
+    BIG = [99991, 100003, 65537, 131071, 99989, 50021]
+    pool = [n for n in nets.net_pool(rng, 30, nmin=4, nmax=7, weird=False) if n.K >= 3]
+    for _ in range(40 if quick else 400):
+        base = rng.choice(pool)
+        net = nets.Net([list(t) for t in base.inputs], list(base.output), [rng.choice(BIG) for _ in range(base.K)], lab=base.lab)
+        ssa = nets.tree_to_ssa(nets.rand_tree(rng, net.N), net.N, rng)
+        d = {"net": net.to_json(), "ssa": [list(p) for p in ssa], "ops": []}
+        run.count()
+        run.nontrivial(("big", net.eq(), str(net.dims), str(ssa)))
+        try:
+            with core.watchdog(120):
+                tree = observe.build_tree(ct, net, ssa)
+                tree.contract_stats()
+                for step in range(6):
+                    free = [ix for ix in range(1, net.K + 1) if net.lab[ix] not in tree.sliced_inds and net.on(ix)]
+                    how = rng.choice(["slice", "slice", "project", "restore", "reconfigure", "copy"])
+                    if how == "slice" and free:
+                        ix = rng.choice(free)
+                        tree.remove_ind_(net.lab[ix])
+                        d["ops"].append(["remove_ind", net.lab[ix]])
+                    elif how == "project" and free:
+                        ix = rng.choice(free)
+                        v = rng.randrange(net.dim(ix))
+                        tree.remove_ind_(net.lab[ix], project=v)
+                        d["ops"].append(["remove_ind", net.lab[ix], v])
+                    elif how == "restore" and tree.sliced_inds:
+                        ind = rng.choice(sorted(tree.sliced_inds))
+                        tree.restore_ind_(ind)
+                        d["ops"].append(["restore_ind", ind])
+                    elif how == "copy":
+                        tree = tree.copy()
+                        d["ops"].append(["copy"])
+                    else:
+                        tree.subtree_reconfigure_(subtree_size=4, maxiter=3, seed=rng.randrange(100))
+                        d["ops"].append(["subtree_reconfigure"])
+                    diffs = history.rebuild_equal(ct, net, tree)
+                    if diffs:
+                        run.violation(f"figures beyond 2^53: after {d['ops']} the tracked figures differ from a from-scratch rebuild: "
+                                      f"{diffs} | eq={net.eq()} dims={net.dims}", d, tags={"big-figures", "rebuild-differs"})
+                        break
+        except core.Hang:
+            raise
+        except Exception as e:
+            run.violation(f"figures beyond 2^53: history {d['ops']} raised {core.exc_text(e)} eq={net.eq()}", d, tags={"big-figures", "raised"})
+
+
 def run(run):
     design_level(run)
+    big_figures(run)
     _hist.run_histories(run, "figures", f"c04_{run.tier}")
     _repo.run_repo_traces(run, "figures", "c04")
     _build.run_build(run, f"c04_{run.tier}")
